@@ -10,7 +10,8 @@ Decided (lattice / face-plane level):
      equals the value entering it for (s>>2, h-1)) for every level 2..28 and orientation, all s.
  (V) validation of the lemma's structural premise on the real composition: for small levels the displacement set
      enumerated from the real s_to_anchor on ALL indices (symbolic s, merged mode) is contained in D.
- Geometric series: the centre of a depth-k descendant is within 2*R1 parent widths of the ancestor's centre.
+ The same lemma for depths 2 and 3 gives the exact maxima R2, R3; beyond depth 3 the geometric series of the one-level
+ drift bounds the rest: ratio(any depth) <= R3 + R1/4.
 Not decided: the step from the face plane to the sphere (needs the projection's distortion)."""
 import math
 import z3
@@ -22,9 +23,11 @@ from . import c18
 
 ORIENTATIONS = c18.ORIENTATIONS
 YES, NO = -1, 1
-R1_LIMIT = 0.70
-PLANAR_BOUND = 2 * R1_LIMIT
-BOUNDS = {"(L)": "flip state (4) x parent digit (4) x child digit (4) symbolic, 6 orientations, parent anchor offset symbolic in [0, 2^29]^2",
+R_LIMIT = {1: 0.66, 2: 0.93, 3: 1.08}       # certified planar centre-distance / sqrt(ancestor area) per depth
+R1_LIMIT = R_LIMIT[1]
+PLANAR_BOUND = round(R_LIMIT[3] + R_LIMIT[1] / 4, 3)      # depth 3 exact + geometric tail of the one-level drift
+BOUNDS = {"(L)": "depths 1, 2, 3: flip state (4) x ancestor digit (4) x descendant digits (4^k) symbolic, 6 orientations, ancestor anchor offset symbolic "
+                 "in [0, 2^26]^2, level symbolic in k+1..28",
           "(S)": "every level h in 2..28 (quick: 2,3,8,16,27,28), 6 orientations, all 4^h indices",
           "(V)": "levels h in {2,3,4} (thorough: 2..5; the h=6 enumeration came back unknown), all indices, 6 orientations",
           "certified planar bound": "centre(descendant) within %.2f * sqrt(planar area(ancestor)) at any depth" % PLANAR_BOUND}
@@ -75,69 +78,85 @@ def _sign(c, name):
 
 
 # ---------------------------------------------------------------------------------- (L)
-def h_local(c, o):
-    """one-level drift set from fresh local state, through the real helpers and the real post-transform."""
+def h_local(c, o, k=1, level=None):
+    """depth-k drift set from fresh local state, through the real helpers and the real post-transform.
+    Local state: flip state P before the ancestor's last digit, that digit p (after the ancestor's own processing) and the
+    descendant's k further digits; the loop skeleton of _s_to_anchor (shift pass top-down, then Horner pass) is
+    replayed on these k+1 digits with the real _shift_digits / quaternary_to_flips / quaternary_to_kj / kj_to_ij."""
     H = c18.install_merged()
     sf.install_float_mode(c, "intbv")
     invert_j = o in ("wv", "vw")
     flip_ij = o in ("wu", "uw")
     pattern = H.PATTERN_FLIPPED if flip_ij else H.PATTERN
-    P = [_sign(c, "Px"), _sign(c, "Py")]            # flip state before the parent's last digit
-    p = c.int("p", 0, 3)                            # parent's last digit after the parent's own processing
-    c0 = c.int("c0", 0, 3)                          # child's own (least significant) digit
-    hh = c.int("h", 2, 28)                          # level of the child (enters the invert_j transform only)
-    Ou = c.int("Ou", 0, 2 ** 29)                    # parent's anchor minus its last digit's contribution (KJ), arbitrary
-    Ov = c.int("Ov", 0, 2 ** 29)
-    # parent: its last digit p under flips P
+    P = [_sign(c, "Px"), _sign(c, "Py")]
+    p = c.int("p", 0, 3)
+    cs = [c.int("c%d" % i, 0, 3) for i in range(k)]      # cs[0] least significant
+    if k >= 2:
+        # the local state space is finite (4 x 4 x 4^k): it is enumerated completely by forking (AllSAT over the outputs took
+        # 0.7 s per element); the solver still quantifies over every ancestor offset and level
+        P = [(-1 if bool(x == -1) else 1) for x in P]
+        p = p.__index__()
+        cs = [x.__index__() for x in cs]
+    hh = c.int("h", k + 1, 28) if level is None else level
+    Ou = c.int("Ou", 0, 2 ** 26)
+    Ov = c.int("Ov", 0, 2 ** 26)
+    # ancestor: its last digit p under flips P
     kp = H.quaternary_to_kj(p, tuple(P))
     nf = H.quaternary_to_flips(p)
     Pp = (P[0] * nf[0], P[1] * nf[1])
     par_kj = (2 * Ou + _iv(kp[0]), 2 * Ov + _iv(kp[1]))
-    # child: one more shift step on (p, c0) with flips P, then two Horner steps
-    digits = [c0, p]
+    # descendant: shift pass over the k+1 local digits (the levels above are shared with the ancestor)
+    digits = list(cs) + [p]
     fl = list(P)
-    H._shift_digits(digits, 1, fl, invert_j, pattern)
-    d1, d0 = digits[1], digits[0]
-    k1 = H.quaternary_to_kj(d1, tuple(P))
-    n1 = H.quaternary_to_flips(d1)
-    P1 = (P[0] * n1[0], P[1] * n1[1])
-    k0 = H.quaternary_to_kj(d0, tuple(P1))
-    n0 = H.quaternary_to_flips(d0)
-    Pc = (P1[0] * n0[0], P1[1] * n0[1])
-    chi_kj = (2 * (2 * Ou + _iv(k1[0])) + _iv(k0[0]), 2 * (2 * Ov + _iv(k1[1])) + _iv(k0[1]))
+    for i in range(k, 0, -1):
+        H._shift_digits(digits, i, fl, invert_j, pattern)
+        n = H.quaternary_to_flips(digits[i])
+        fl[0] *= n[0]
+        fl[1] *= n[1]
+    # Horner pass
+    fl = list(P)
+    acc = [Ou, Ov]
+    for i in range(k, -1, -1):
+        kk = H.quaternary_to_kj(digits[i], tuple(fl))
+        acc = [2 * acc[0] + _iv(kk[0]), 2 * acc[1] + _iv(kk[1])]
+        n = H.quaternary_to_flips(digits[i])
+        fl[0] *= n[0]
+        fl[1] *= n[1]
+    Pc = (fl[0], fl[1])
     par_ij = H.kj_to_ij((sf.SymFInt._wrap(par_kj[0]), sf.SymFInt._wrap(par_kj[1])))
-    chi_ij = H.kj_to_ij((sf.SymFInt._wrap(chi_kj[0]), sf.SymFInt._wrap(chi_kj[1])))
-    # the real orientation post-transform of s_to_anchor around a stubbed _s_to_anchor
+    chi_ij = H.kj_to_ij((sf.SymFInt._wrap(acc[0]), sf.SymFInt._wrap(acc[1])))
     feed = []
     H._s_to_anchor = lambda s, r, inv, fl_: feed.pop(0)
     try:
-        feed.append(H.Anchor(d0, chi_ij, Pc))
+        feed.append(H.Anchor(digits[0], chi_ij, Pc))
         child = H.s_to_anchor(0, hh, o)
         feed.append(H.Anchor(p, par_ij, Pp))
-        parent = H.s_to_anchor(0, hh - 1, o)
+        parent = H.s_to_anchor(0, hh - k, o)
     finally:
         c18.restore()
-    di = child.offset[0] - 2 * parent.offset[0]
-    dj = child.offset[1] - 2 * parent.offset[1]
+    di = child.offset[0] - (2 ** k) * parent.offset[0]
+    dj = child.offset[1] - (2 ** k) * parent.offset[1]
     vals = [_iv(di), _iv(dj), child.flips[0], child.flips[1], parent.flips[0], parent.flips[1], child.k, parent.k]
-    tuples = c.enumerate_tuples(vals, limit=3000, label="one-level-displacement-set-enumerated")
+    tuples = c.enumerate_tuples(vals, limit=20000, label="depth-%d-displacement-set-enumerated" % k)
     consts = _consts()
     worst = 0.0
-    ob = c.stats.ob("planar-ratio(depth 1)<=%.2f" % R1_LIMIT)
+    lim = R_LIMIT[k]
+    ob = c.stats.ob("planar-ratio(depth %d)<=%.2f" % (k, lim))
     for tup, inputs in tuples:
-        r = ratio(tup, consts)
+        r = ratio(tup, consts, k)
         worst = max(worst, r)
         ob["paths"] += 1
-        if r > R1_LIMIT:
+        if r > lim:
             ob["sat"] += 1
-            c.counterexamples.append({"label": "planar-ratio(depth 1)<=%.2f" % R1_LIMIT, "inputs": inputs,
-                                      "info": {"candidate": True, "ratio": r, "tuple": list(tup), "o": o}})
+            if len(c.counterexamples) < 4:
+                c.counterexamples.append({"label": "planar-ratio(depth %d)<=%.2f" % (k, lim), "inputs": inputs,
+                                          "info": {"candidate": True, "ratio": r, "tuple": list(tup), "o": o}})
         else:
             ob["trivial"] += 1
     ex = c.__dict__.setdefault("extra_sets", set())
     ex.update(t for t, _ in tuples)
-    c.extra = {"kind": "L", "o": o, "worst": max(worst, (c.extra or {}).get("worst", 0.0)) if getattr(c, "extra", None) else worst,
-               "tuples": sorted(ex)}
+    prev = getattr(c, "extra", None) or {}
+    c.extra = {"kind": "L", "o": o, "k": k, "worst": max(worst, prev.get("worst", 0.0)), "tuples": sorted(ex) if k == 1 else []}
 
 
 # ---------------------------------------------------------------------------------- (S)
@@ -178,13 +197,19 @@ def h_validate(c, h, o, j):
 
 
 def h_bound(c):
-    c.prove(2 * R1_LIMIT <= PLANAR_BOUND and PLANAR_BOUND < 1.5, "geometric-series:ratio(any depth)<=2*R1<=%.2f<1.5" % PLANAR_BOUND)
+    c.prove(R_LIMIT[3] + R_LIMIT[1] / 4 <= PLANAR_BOUND + 1e-12 and PLANAR_BOUND < 1.5,
+            "tail:ratio(any depth)<=R3+R1/4=%.3f<1.5" % PLANAR_BOUND)
+    c.prove(R_LIMIT[1] <= R_LIMIT[2] <= R_LIMIT[3], "limits-monotone")
 
 
 def jobs(tier, seed):
     js = []
     for o in ORIENTATIONS:
-        js.append(Job("L[%s]" % o, "h_local", {"o": o}, {"query_timeout_ms": 300000, "max_paths": 200}, weight=10))
+        for k in (1, 2, 3):
+            if k == 3 and tier == "quick" and o not in ("uv", "wv", "wu"):
+                continue      # quick: depth 3 for one orientation of each class (plain / invert_j / flip_ij); thorough: all six
+            js.append(Job("L[%s,depth=%d]" % (o, k), "h_local", {"o": o, "k": k}, {"query_timeout_ms": 600000, "max_paths": 20000},
+                          weight=10 * 4 ** k))
         for h in ([2, 3, 8, 16, 27, 28] if tier == "quick" else range(2, 29)):
             js.append(Job("S[h=%d,%s]" % (h, o), "h_reversal", {"h": h, "o": o}, {}, weight=1))
         for h in ([2, 3, 4] if tier == "quick" else [2, 3, 4, 5]):
@@ -205,6 +230,8 @@ def post_check(results):
         if not ex:
             continue
         if ex["kind"] == "L":
+            if ex.get("k", 1) != 1:
+                continue
             L.setdefault(ex["o"], set()).update(tuple(t) for t in ex["tuples"])
         else:
             V.setdefault(ex["o"], set()).update(tuple(t) for t in ex["tuples"])
@@ -236,10 +263,17 @@ def post_results(results):
 
 def extra_coverage(tier, results):
     miss, nl, nv = post_check(results)
-    worst = max([r["extra"].get("worst", 0.0) for r in results if r.get("extra") and r["extra"]["kind"] == "L"] or [0.0])
+    worst = {}
+    for r in results:
+        ex = r.get("extra")
+        if ex and ex["kind"] == "L":
+            k = ex.get("k", 1)
+            worst[k] = max(worst.get(k, 0.0), ex.get("worst", 0.0))
+    bound = (worst.get(3, 0.0) + worst.get(1, 0.0) / 4) if 3 in worst else 2 * worst.get(1, 0.0)
     return {"one_level_set_sizes_from_lemma": nl, "one_level_set_sizes_from_real_composition": nv,
-            "real_composition_tuples_not_in_lemma_set": len(miss), "max_one_level_planar_ratio": round(worst, 4),
-            "certified_planar_bound_any_depth": round(2 * max(worst, 0.0), 4)}
+            "real_composition_tuples_not_in_lemma_set": len(miss),
+            "max_planar_ratio_by_depth": {str(k): round(v, 4) for k, v in sorted(worst.items())},
+            "measured_planar_bound_any_depth(R3+R1/4)": round(bound, 4), "certified_limit": PLANAR_BOUND}
 
 
 _PRE = """
@@ -334,4 +368,4 @@ def _shift_digits(digits, i, flips, invert_j, pattern):
 
 
 def selftests(seed):
-    return [Job("selftest-invert-j[L,wv]", "h_local", {"o": "wv"}, {"patch": "_patch_invert", "expect_cex": True, "max_paths": 200})]
+    return [Job("selftest-invert-j[L,wv]", "h_local", {"o": "wv", "k": 2}, {"patch": "_patch_invert", "expect_cex": True, "max_paths": 20000})]
